@@ -462,6 +462,9 @@ func main() {
 		return
 	}
 
+	if a.Tier == "search" && a.N > 1200 {
+		a.N = 1200 // the search for a failing input after a broken obligation must end within minutes
+	}
 	rng := hx.NewRng(a.Seed)
 	type shape struct{ n, t int }
 	var shapes []shape
